@@ -19,6 +19,7 @@ import (
 	"path/filepath"
 	"strings"
 	"sync"
+	"sync/atomic"
 
 	"mellium.im/xmpp"
 	"mellium.im/xmpp/jid"
@@ -35,6 +36,11 @@ type outcome struct {
 	Verdicts []verdict `json:"verdicts,omitempty"`
 	invVar   []int
 }
+
+// stuckWorlds counts the worlds in which a watchdog expired (the library did not
+// do something it must). Random generation stops early once there are many: the
+// run has its failing cases and every further one costs a watchdog.
+var stuckWorlds atomic.Int32
 
 // drive runs ops on a fresh world. next, if not nil, supplies further ops
 // on line (random generation against the live state).
@@ -69,6 +75,9 @@ func drive(c Case, next func(w *world, step int) (Op, bool)) outcome {
 		}
 	}
 	w.finish()
+	if w.stuck {
+		stuckWorlds.Add(1)
+	}
 	if w.serveDead() {
 		w.anom("the serve loop ended: a handler returned an error or the stream broke")
 	}
@@ -478,7 +487,7 @@ func main() {
 		wg.Add(1)
 		go func(wi int, r *hx.Rand) {
 			defer wg.Done()
-			for i := 0; i < n/workers; i++ {
+			for i := 0; i < n/workers && stuckWorlds.Load() < 16; i++ {
 				outs[wi] = append(outs[wi], randomCase(r))
 			}
 		}(wi, r)
